@@ -408,6 +408,8 @@ class C13(Check):
                 m.update(cmd=rng.choice([0, 0, 0, 0, 1, 2, 3, 4]), flags=rng.choice([0, 0, 1, 2]), prio=rng.choice([1, 2, 3, 0x8000, rng.randint(0, 9)]),
                          acts=[[0, rng.choice(self.FOCUS_PORTS)] for _ in range(rng.choice([0, 1, 1, 1, 2]))] + ([[3, 0]] if rng.random() < 0.2 else []),
                          out_port=rng.choice([OFPP_NONE, OFPP_NONE] + self.FOCUS_PORTS))
+            if any(not (0 <= a[0] <= 11) for a in m["acts"]):
+                m["bid"] = None       # with a live buffer the BAD_ACTION error of the pre-check and that of running the actions look alike on the wire
             ctx.setdefault("outs", []).extend(a[1] for a in m["acts"] if a[0] == 0)
         elif k == "stats_request":
             st_kind = rng.choice(["desc", "flow", "flow", "aggregate", "aggregate", "table", "port", "port", "queue", "queue", "other"])
@@ -634,8 +636,74 @@ class C13(Check):
                 {"k": "stats_request", "xid": 7006, "st": "flow", "mkey": None, "table_id": 0, "out_port": OFPP_NONE}, bar(7007)]
         one(S[0], big)
         one(S[0], [m for m in big if m["k"] != "traffic"], "batch")
+        cases += self.corpus_hardening(S, fm, bar, ps, po, tr, tbl, fl, ag)
         for _ in range(40):
             cases.append(self.gen_case(rng, rng.randint(1, 6), "step"))
+        return cases
+
+    def corpus_hardening(self, S, fm, bar, ps, po, tr, tbl, fl, ag):
+        """families from HARDENING.md: sweeps of every selector byte, boundary sizes, rare values, two switches in one
+        process, a message still in flight"""
+        cases = []
+        def one(st, msgs, mode="step", **kw):
+            c = {"state": copy.deepcopy(st), "mode": mode, "msgs": [copy.deepcopy(m) for m in msgs]}
+            if mode == "batch": c["cuts"] = []
+            c.update(kw); cases.append(c)
+        hdr = lambda t, ln, x: struct.pack("!BBHL", 1, t, ln, x)
+        # (6) every value of the type octet that has no decoder, between two valid requests in ONE read
+        for t in range(22, 256):
+            one(S[0], [bar(1), {"k": "bad", "why": "type", "xid": 5000 + t, "raw": (hdr(t, 8 + t % 5, 5000 + t) + bytes(t % 5)).hex()}, ps(2, 1)], "batch")
+        # (6) every declared length around the only valid one, for the fixed-size messages
+        for t, size in ((5, 8), (7, 8), (18, 8), (9, 12), (15, 32), (20, 12)):
+            for ln in range(8, size + 17):
+                if ln != size:
+                    one(S[0], [bar(1), {"k": "bad", "why": "len", "xid": 6000 + ln, "raw": (hdr(t, ln, 6000 + ln) + bytes(ln - 8)).hex()}, bar(2)], "batch")
+        # (6) statistics types, action types, flow-mod commands: every small value and the signed/unsigned boundaries
+        edge = [0x7fff, 0x8000, 0xfffe, 0xffff]
+        one(S[0], [{"k": "stats_request", "xid": 100 + t, "st": "other", "stype": t, "rawbody": "00002320" if t == 0xffff else ""} for t in list(range(6, 41)) + edge])
+        one(S[0], [{"k": "packet_out", "xid": 200 + i, "bid": None, "data": True, "in_port": OFPP_NONE, "acts": [[0, 1], [t, 7], [0, 2]]}
+                   for i, t in enumerate(list(range(12, 41)) + edge)])
+        one(S[0], [fm(300 + i, c, 1, 5, acts=[(0, 2)]) for i, c in enumerate(list(range(0, 11)) + [255, 256] + edge)] + [tbl, fl])
+        # (3) rare values: xid 0 / sign boundaries / all ones on every kind of answer; falsy port, queue, table, buffer, cookie, priority
+        for x in (0, 1, 0x7fffffff, 0x80000000, 0xffffffff):
+            one(S[0], [{"k": "hello", "xid": x}, {"k": "echo_request", "xid": x, "body": ""}, bar(x), {"k": "features_request", "xid": x}, {"k": "get_config_request", "xid": x},
+                       ps(x, 0), {"k": "stats_request", "xid": x, "st": "queue", "port": 0, "queue": 0}, {"k": "queue_get_config_request", "xid": x, "port": 0},
+                       {"k": "vendor", "xid": x, "vendor": 0}, fm(x, 9, None, 0), {"k": "packet_out", "xid": x, "bid": 0, "data": False, "in_port": 0, "acts": []},
+                       {"k": "port_mod", "xid": x, "port": 0, "hw": 0, "config": 0, "mask": 0}, fm(x, 0, 0, 0, ck=0), fm(x, 0, None, 0xffff, ck=0), fm(x, 0, None, 32768, ck=0),
+                       {"k": "stats_request", "xid": x, "st": "flow", "mkey": 0, "table_id": 0, "out_port": 0}, tbl, {"k": "set_config", "xid": x, "flags": 0, "miss": 0},
+                       {"k": "get_config_request", "xid": x}])
+        for n in (8, 64, 1024, 2040, 2048, 4096, 65527):
+            one(S[0], [{"k": "echo_request", "xid": n, "body": (bytes(range(256)) * 257)[:n].hex()}, bar(1)], "batch")
+        # (3) dpid 0, no ports, no buffers, no table space
+        z = {"dpid": 0, "ports": [], "deleted": [], "max_buffers": 0, "max_entries": 0, "miss": 0}
+        one(z, [{"k": "hello", "xid": 1}, {"k": "features_request", "xid": 2}, ps(3, OFPP_NONE), tbl, fm(4, 0, None, 1), po(5, OFPP_CONTROLLER), fl, ag, bar(6),
+                {"k": "stats_request", "xid": 7, "st": "desc"}])
+        one(dict(S[0], dpid=0), [{"k": "features_request", "xid": 2}, {"k": "stats_request", "xid": 7, "st": "desc"}, fm(4, 0, 1, 1, acts=[(0, 2)]), tr(1), fl])
+        # (3) a reply that fills a message exactly / just does not: 682 and 683 flows of 96 bytes; 65528 bytes of entries; 630 and 631 ports
+        flall = {"k": "stats_request", "xid": 9001, "st": "flow", "mkey": None, "table_id": 0xff, "out_port": OFPP_NONE}
+        for nflows in (682, 683):
+            one(S[0], [fm(10 + i, 0, 1 + i % 4, 2000 - i, acts=[(0, 2)], ck=i) for i in range(nflows)] + [flall, ag, bar(9002)])
+        one(S[0], [fm(10 + i, 0, 1 + i % 4, 2000 - i, ck=i) for i in range(743)] + [fm(900, 0, None, 1, acts=[(0, 1 + j % 4) for j in range(7)], ck=900), flall, bar(9002)])
+        for nports in (630, 631):
+            big = {"ports": list(range(1, nports + 1)), "deleted": [], "max_buffers": 2, "max_entries": 5, "miss": 128}
+            one(big, [ps(1, OFPP_NONE), {"k": "features_request", "xid": 2}, bar(3), ps(4, nports), ps(5, nports + 1)], "batch")
+        # (5)/(7) the last message of a read has not arrived completely: everything before it is answered, it is not
+        tail = [bar(1), ps(2, 1), {"k": "echo_request", "xid": 3, "body": "00" * 24}]
+        for k in (1, 8, 24, 31):
+            one(S[0], tail, "batch", drop_tail=k)
+        one(S[0], [bar(1), fm(2, 0, 1, 5, acts=[(0, 2)]), {"k": "stats_request", "xid": 3, "st": "table"}], "batch", drop_tail=3)
+        # (1) two switches with the same dpid in one process, driven alternately: nothing may leak from one to the other
+        hw1 = self.hw_of(S[0], 1); hw2 = self.hw_of(S[2], 2)
+        a = [{"k": "hello", "xid": 1}, {"k": "features_request", "xid": 2}, {"k": "set_config", "xid": 3, "flags": 1, "miss": 10}, {"k": "get_config_request", "xid": 4},
+             {"k": "port_mod", "xid": 5, "port": 1, "hw": hw1, "config": 1, "mask": 1}, {"k": "features_request", "xid": 6}, po(7, OFPP_CONTROLLER), fm(8, 0, 1, 5, acts=[(0, 2)]),
+             tbl, fl, ps(9, OFPP_NONE), {"k": "stats_request", "xid": 10, "st": "desc"}, {"k": "queue_get_config_request", "xid": 11, "port": 4}, po(12, 2), ps(13, 2), {"k": "hello", "xid": 14}]
+        b = [{"k": "features_request", "xid": 21}, {"k": "get_config_request", "xid": 22}, {"k": "hello", "xid": 23}, {"k": "set_config", "xid": 24, "flags": 2, "miss": 77},
+             {"k": "features_request", "xid": 25}, po(26, OFPP_CONTROLLER), po(27, OFPP_CONTROLLER), tbl, fl, {"k": "get_config_request", "xid": 28},
+             {"k": "port_mod", "xid": 29, "port": 2, "hw": hw2, "config": 0x40, "mask": 0x40}, ps(30, OFPP_NONE), {"k": "queue_get_config_request", "xid": 31, "port": 4},
+             {"k": "features_request", "xid": 32}, ps(33, 2), {"k": "packet_out", "xid": 34, "bid": 1, "data": False, "in_port": OFPP_NONE, "acts": []}]
+        one(S[0], a, other={"state": copy.deepcopy(S[2]), "mode": "step", "msgs": copy.deepcopy(b)})
+        one(S[2], b, other={"state": copy.deepcopy(S[0]), "mode": "step", "msgs": copy.deepcopy(a)})
+        one(S[0], a, other={"state": copy.deepcopy(S[0]), "mode": "step", "msgs": copy.deepcopy(a[4:] + a[:4])})
         return cases
 
     def generate(self, rng, tier):
@@ -645,7 +713,10 @@ class C13(Check):
             r = rng.random()
             if i % 5 == 0: yield self.gen_case(rng, max(L, 4), rng.choice(["step", "step", "batch"]), focus=True)
             elif r < 0.45: yield self.gen_case(rng, L, "step", buffers=False, unhandled=(rng.random() < 0.3))
-            elif r < 0.65: yield self.gen_case(rng, L, "step", buffers=True)
+            elif r < 0.65:
+                c = self.gen_case(rng, L, "step", buffers=True)
+                if rng.random() < 0.25: c["other"] = self.gen_case(rng, rng.choice([3, 10, L]), "step", buffers=True)
+                yield c
             else: yield self.gen_case(rng, L, "batch", unhandled=(rng.random() < 0.2))
 
     def search_cases(self, rng, tier):
@@ -663,84 +734,119 @@ class C13(Check):
         sw = node.sw
         def mkey(m):
             return None if (m.wildcards & 1) else m.in_port
-        return {"ports": [[no, ps.rx_packets, ps.tx_packets, ps.rx_bytes, ps.tx_bytes] for no, ps in sw.port_stats.items()],
-                "flows": [[e.priority, e.cookie, mkey(e.match), e.packet_count, e.byte_count] for e in sw.table.entries],
-                "lookup": sw._lookup_count, "matched": sw._matched_count, "buffers": [0 if b is None else 1 for b in sw._packet_buffer]}
+        try:
+            return {"ports": [[no, ps.rx_packets, ps.tx_packets, ps.rx_bytes, ps.tx_bytes] for no, ps in sw.port_stats.items()],
+                    "flows": [[e.priority, e.cookie, mkey(e.match), e.packet_count, e.byte_count] for e in sw.table.entries],
+                    "lookup": sw._lookup_count, "matched": sw._matched_count, "buffers": [0 if b is None else 1 for b in sw._packet_buffer]}
+        except (AttributeError, TypeError, KeyError) as e:
+            # the private representation changed: no peeking — the run degrades to the wire-only oracle (see extra_evidence)
+            self.degraded = "snapshot: %s" % e
+            return None
 
     @staticmethod
     def traffic_frame(op):
         n = max(14, op["len"])
         return (bytes([0, 0, 0, 0, 0, 2, 0, 0, 0, 0, 0, op.get("src", 1) % 250 + 1, 0x88, 0xb5]) + bytes(i & 0xff for i in range(n - 14)))
 
-    def impl(self, case):
-        node = self.make_node(case["state"])
-        excs = []
-        orig = node.ofc._error_handler
-        ERRX = self.OFConnection.ERR_EXCEPTION
-        def eh(reason, info):
-            if reason == ERRX: excs.append(type(info[0]).__name__)     # a handler raised; protocol-level rejections are answered, not failures
-            return orig(reason, info)
-        node.ofc._error_handler = eh
-        # the state at the moment each message was handled: snapshot after every call of the switch's message handler
-        after = []
-        inner = node.ofc.on_message_received
-        def handler(con, msg):
-            try:
-                return inner(con, msg)
-            finally:
-                after.append(self.snapshot(node))
-        node.ofc.on_message_received = handler
-        w = node.w
-        def take():
-            b = bytes(w.send_buf); w.send_buf = b""
+    class _Run:
+        """one real switch driven op by op (so that two of them can be interleaved in one process)"""
+        def __init__(self, chk, case):
+            self.chk, self.case = chk, case
+            node = self.node = chk.make_node(case["state"])
+            self.excs, self.after = [], []
+            orig = node.ofc._error_handler
+            ERRX = chk.OFConnection.ERR_EXCEPTION
+            def eh(reason, info):
+                if reason == ERRX: self.excs.append(type(info[0]).__name__)   # a handler raised; protocol-level rejections are answered, not failures
+                return orig(reason, info)
+            node.ofc._error_handler = eh
+            # the state at the moment each message was handled: snapshot after every call of the switch's message handler
+            inner = node.ofc.on_message_received
+            def handler(con, msg):
+                try:
+                    return inner(con, msg)
+                finally:
+                    self.after.append(chk.snapshot(node))
+            node.ofc.on_message_received = handler
+            self.w = node.w
+            self.init = self.cur = chk.snapshot(node)
+            self.msgs = case["msgs"]
+            self.raws = [chk.to_bytes(m) for m in self.msgs]
+            self.groups = []
+        def take(self):
+            b = bytes(self.w.send_buf); self.w.send_buf = b""
             return b
-        def push(data):
+        def push(self, data):
             try:
-                w._push_receive_data(data)
+                self.w._push_receive_data(data)
                 return "ok"
             except Exception as e:
-                w.receive_buf = b""
+                self.w.receive_buf = b""
                 return "raise:" + type(e).__name__
-        init = self.snapshot(node)
-        msgs = case["msgs"]
-        raws = [self.to_bytes(m) for m in msgs]
-        if case["mode"] == "step":
-            groups, cur = [], init
-            for m, raw in zip(msgs, raws):
-                del excs[:]; del after[:]
-                if m["k"] == "traffic":
-                    fr = self.traffic_frame(m)
-                    try:
-                        node.sw.rx_packet(self.ethernet(fr), m["port"], packet_data=fr); st = "ok"
-                    except Exception as e:
-                        st = "raise:" + type(e).__name__
-                    w_out = take()
-                    cur = self.snapshot(node)
-                    groups.append({"out": decode_stream(w_out), "exc": [], "st": "ok" if st == "ok" else "traffic-" + st, "snap": cur, "calls": 0})
-                    continue
-                st = push(raw)
-                if w.closed or w._shutdown_send: st = "closed"
-                if after: cur = after[-1]
-                groups.append({"out": decode_stream(take()), "exc": list(excs), "st": st, "snap": cur, "calls": len(after)})
-            return {"mode": "step", "init": init, "groups": groups, "alive": not (w.closed or w._shutdown_send), "left": len(w.receive_buf), "final": self.final_state(node)}
-        stream = b"".join(raws)
-        cuts = sorted(set(c for c in case.get("cuts", []) if 0 < c < len(stream)))
-        out, sts, prev = b"", [], 0
-        for c in cuts + [len(stream)]:
-            sts.append(push(stream[prev:c])); prev = c
-            out += take()
-        return {"mode": "batch", "init": init, "snaps": list(after), "stream": decode_stream(out), "exc": list(excs), "st": sorted(set(sts)), "alive": not (w.closed or w._shutdown_send),
-                "left": len(w.receive_buf), "final": self.final_state(node)}
+        def dead(self):
+            return bool(self.w.closed or self.w._shutdown_send)
+        def do(self, i):
+            chk, node, m, raw = self.chk, self.node, self.msgs[i], self.raws[i]
+            del self.excs[:]; del self.after[:]
+            if m["k"] == "traffic":
+                fr = chk.traffic_frame(m)
+                try:
+                    node.sw.rx_packet(chk.ethernet(fr), m["port"], packet_data=fr); st = "ok"
+                except Exception as e:
+                    st = "raise:" + type(e).__name__
+                w_out = self.take()
+                self.cur = chk.snapshot(node)
+                self.groups.append({"out": decode_stream(w_out), "exc": [], "st": "ok" if st == "ok" else "traffic-" + st, "snap": self.cur, "calls": 0})
+                return
+            st = self.push(raw)
+            if self.dead(): st = "closed"
+            if self.after: self.cur = self.after[-1]
+            self.groups.append({"out": decode_stream(self.take()), "exc": list(self.excs), "st": st, "snap": self.cur, "calls": len(self.after)})
+        def finish_step(self):
+            return {"mode": "step", "init": self.init, "groups": self.groups, "alive": not self.dead(), "left": len(self.w.receive_buf),
+                    "final": self.chk.final_state(self.node)}
+        def batch(self):
+            case = self.case
+            stream = b"".join(self.raws)
+            if case.get("drop_tail"): stream = stream[:len(stream) - case["drop_tail"]]      # the last message has not arrived completely
+            cuts = sorted(set(c for c in case.get("cuts", []) if 0 < c < len(stream)))
+            out, sts, prev = b"", [], 0
+            for c in cuts + [len(stream)]:
+                sts.append(self.push(stream[prev:c])); prev = c
+                out += self.take()
+            return {"mode": "batch", "init": self.init, "snaps": list(self.after), "stream": decode_stream(out), "exc": list(self.excs), "st": sorted(set(sts)),
+                    "alive": not self.dead(), "left": len(self.w.receive_buf), "final": self.chk.final_state(self.node)}
+
+    def impl(self, case):
+        a = self._Run(self, case)
+        if case["mode"] != "step":
+            return a.batch()
+        other = case.get("other")                 # a second switch in the same process, driven alternately: they must not share anything
+        b = self._Run(self, other) if other else None
+        for i in range(max(len(a.msgs), len(b.msgs) if b else 0)):
+            if i < len(a.msgs): a.do(i)
+            if b and i < len(b.msgs): b.do(i)
+        obs = a.finish_step()
+        if b: obs["other"] = b.finish_step()
+        return obs
 
     def final_state(self, node):
         """abstraction of the real switch object after the sequence (compared with the model's final state)"""
         sw, of = node.sw, self.of
         def mkey(m):
             return None if (m.wildcards & 1) else m.in_port
-        return {"config": [sw.config_flags, sw.miss_send_len], "hello": bool(sw._has_sent_hello),
-                "ports": [[p.port_no, int.from_bytes(p.hw_addr.toRaw(), "big"), p.config, p.state] for p in sw.ports.values()],
-                "table": [[e.priority, e.cookie, mkey(e.match), e.flags, [a.port for a in e.actions if isinstance(a, of.ofp_action_output)]] for e in sw.table.entries],
-                "buffers": [0 if b is None else 1 for b in sw._packet_buffer]}
+        try:
+            return {"config": [sw.config_flags, sw.miss_send_len], "hello": bool(sw._has_sent_hello),
+                    "ports": [[p.port_no, int.from_bytes(p.hw_addr.toRaw(), "big"), p.config, p.state] for p in sw.ports.values()],
+                    "table": [[e.priority, e.cookie, mkey(e.match), e.flags, [a.port for a in e.actions if isinstance(a, of.ofp_action_output)]] for e in sw.table.entries],
+                    "buffers": [0 if b is None else 1 for b in sw._packet_buffer]}
+        except (AttributeError, TypeError, KeyError) as e:
+            self.degraded = "final_state: %s" % e
+            return None
+
+    degraded = None
+    def extra_evidence(self):
+        return {"degraded": self.degraded} if self.degraded else {}
 
     # ------------------------------------------------------------------ model
 
@@ -755,11 +861,21 @@ class C13(Check):
         return {"k": "traffic", "xid": 0, "ports": snap["ports"], "flows": [[f[3], f[4]] for f in snap["flows"]], "lookup": snap["lookup"],
                 "matched": snap["matched"], "buffers": snap["buffers"] if buffers else None}
 
+    def effective(self, case):
+        """the history the switch has seen completely: with `drop_tail` the last message is still in flight"""
+        if not case.get("drop_tail"): return case
+        c = dict(case, msgs=case["msgs"][:-1])
+        c["expect_left"] = len(self.to_bytes(case["msgs"][-1])) - case["drop_tail"]
+        c.pop("drop_tail")
+        return c
+
     def op_snaps(self, case, obs):
         """snapshot after each op, or None when the handler-call count does not match the decodable messages"""
         msgs = case["msgs"]
+        if obs.get("init") is None: return None
         if obs["mode"] == "step":
-            return [g["snap"] for g in obs["groups"]]
+            l = [g["snap"] for g in obs["groups"]]
+            return None if any(x is None for x in l) else l
         out, it, cur = [], iter(obs["snaps"]), obs["init"]
         for m in msgs:
             if m["k"] != "bad":
@@ -769,6 +885,7 @@ class C13(Check):
         return out
 
     def model_request2(self, case, obs):
+        case = self.effective(case)
         snaps = self.op_snaps(case, obs)
         if snaps is None: return None
         evs, starting = [], True
@@ -789,6 +906,7 @@ class C13(Check):
         return {"state": st, "msgs": evs}
 
     def model_obs(self, case, resp):
+        case = self.effective(case)
         if "groups" not in resp: return resp
         # drop the groups of the counter-sync events inserted after every message
         keep, i = [], 0
@@ -804,6 +922,7 @@ class C13(Check):
         return {k: v for k, v in r.items() if k != "data"}
 
     def impl_view(self, case, obs):
+        case = self.effective(case)
         if obs["mode"] == "step":
             return {"groups": [({"out": []} if m["k"] == "traffic" else {"fail": g["exc"][0]} if g["exc"] else {"out": [self._strip(r) for r in g["out"]]})
                                for m, g in zip(case["msgs"], obs["groups"])], "final": obs["final"]}
@@ -994,13 +1113,11 @@ class C13(Check):
                 fmc = [c for c in codes if c[0] == 3]
                 cmdname = ("add", "modify", "modify_strict", "delete", "delete_strict")[m["cmd"]]
                 if m["cmd"] <= 2 and any(not (0 <= a[0] <= 11) for a in m["acts"]):
-                    # OpenFlow 1.0 §5.4.2 (OFPET_BAD_ACTION): an action type the switch does not implement -> the flow_mod is refused:
-                    # one error, nothing installed, a named buffer not consumed.  (Should the flow_mod be refusable for another
-                    # reason as well, that FLOW_MOD_FAILED error is accepted instead.)
-                    alt, _ = copy.deepcopy(ctx["table"]).flow_mod(m)
-                    if codes == [(2, 0)] or (alt is not None and len(codes) == 1 and codes[0] in alt): return None
+                    # OpenFlow 1.0 §5.4.2 (OFPET_BAD_ACTION): an action type the switch does not implement -> the flow_mod is refused
+                    # before anything else is done with it: one error, nothing installed, a named buffer not consumed
+                    if codes == [(2, 0)]: return None
                     return "flow_mod:unsupported-action:%s | action types %s, expected BAD_ACTION/BAD_TYPE, got %s" % (
-                        "installed-silently" if not codes else "wrong-error", [a[0] for a in m["acts"] if not (0 <= a[0] <= 11)], codes)
+                        "installed-silently" if (2, 0) not in codes else "wrong-error", [a[0] for a in m["acts"] if not (0 <= a[0] <= 11)], codes)
                 ok_codes, notify = ctx["table"].flow_mod(m)
                 name = lambda cs: "none" if not cs else "+".join("%d-%d" % c for c in sorted(cs))
                 if ok_codes is None:
@@ -1036,6 +1153,13 @@ class C13(Check):
         return "harness: unknown kind %s" % k
 
     def oracle(self, case, obs):
+        f = self._oracle_one(self.effective(case), obs)
+        if f is None and case.get("other"):
+            f = self._oracle_one(case["other"], obs["other"])
+            if f: f = "second-switch:" + f
+        return f
+
+    def _oracle_one(self, case, obs):
         st = case["state"]
         live_ports = [p for p in st["ports"] if p not in st["deleted"]]
         ctx = {"hello": False, "config": (0, st["miss"]), "ports": live_ports, "stat_ports": list(st["ports"]), "state": st, "table": SpecTable(st["max_entries"]),
@@ -1045,7 +1169,7 @@ class C13(Check):
         if closing:
             if obs["alive"]: return "bad-message:version:connection-left-open"
         elif not obs["alive"]: return "connection-closed"
-        if obs.get("left") and not closing: return "input-not-consumed | %d bytes" % obs["left"]
+        if obs.get("left", 0) != case.get("expect_left", 0) and not closing: return "input-not-consumed | %d bytes" % obs["left"]
         if case["mode"] == "step":
             if len(obs["groups"]) != len(case["msgs"]): return "harness: group count"
             for m, g, raw in zip(case["msgs"], obs["groups"], raws):
@@ -1066,7 +1190,7 @@ class C13(Check):
         # batch: pair by xid, check order, then the same per-request checks
         if obs["st"] != ["ok"] and not closing: return "connection-%s" % obs["st"]
         snaps = self.op_snaps(case, obs)
-        if snaps is None and not closing: return "batch:handler-call-count | %d calls for %d messages" % (len(obs["snaps"]), sum(1 for m in case["msgs"] if m["k"] != "bad"))
+        if snaps is None and not closing and obs.get("init") is not None: return "batch:handler-call-count | %d calls for %d messages" % (len(obs["snaps"]), sum(1 for m in case["msgs"] if m["k"] != "bad"))
         reqs = [(i, m) for i, m in enumerate(case["msgs"]) if m["k"] != "unhandled"]
         byxid = {m["xid"]: i for i, m in reqs}
         groups = {i: [] for i, _ in reqs}
@@ -1102,7 +1226,8 @@ class C13(Check):
         return c[key]
 
     def finding_key(self, case, obs, failure):
-        return failure.split(" | ")[0]
+        k = failure.split(" | ")[0]
+        return k[len("second-switch:"):] if k.startswith("second-switch:") else k
 
     def nontrivial(self, case, obs):
         rs = [r for g in obs["groups"] for r in g["out"]] if obs["mode"] == "step" else obs["stream"]
@@ -1125,7 +1250,9 @@ class C13(Check):
         if n <= 80:
             for i in range(n):
                 if n > 1: yield without(i, i + 1)
-        if case["mode"] == "batch":
+        if case.get("other"):
+            c = copy.deepcopy(case); c.pop("other"); yield c
+        if case["mode"] == "batch" and not case.get("drop_tail"):
             c = copy.deepcopy(case); c["mode"] = "step"; c.pop("cuts", None); yield c
         if case["state"] != self.STATES[0]:
             c = copy.deepcopy(case); c["state"] = copy.deepcopy(self.STATES[0]); yield c
